@@ -434,6 +434,8 @@ PyModule_AddObject(m, "{cxx_class}", (PyObject *)&{PY_PyTypeObject});""",
         self.wrap_enums(node)
 
         for var in node.variables:
+            if not var.wrap.python:
+                continue
             self.wrap_class_variable(node, var, fileinfo)
 
         # wrap methods
